@@ -100,6 +100,16 @@ def in_node(node, container):
     return False
 
 
+def block_of(stmt):
+    """The statement list (body / orelse / finalbody / handler body) that directly contains stmt."""
+    par = getattr(stmt, '_parent', None)
+    for f_ in ('body', 'orelse', 'finalbody'):
+        b = getattr(par, f_, None)
+        if isinstance(b, list) and stmt in b:
+            return b
+    return []
+
+
 def in_block(node, block):
     return any(in_node(node, st) for st in block)
 
@@ -224,6 +234,23 @@ def raised_class(r):
     e = r.exc
     if isinstance(e, ast.Call):
         e = e.func
+        if isinstance(e, ast.Name):
+            # a local error factory: a nested def (or lambda) all of whose results are K(..)
+            par = getattr(r, '_parent', None)
+            while par is not None:
+                if isinstance(par, (ast.FunctionDef, ast.AsyncFunctionDef)):
+                    for n in par.body:
+                        vals = None
+                        if isinstance(n, ast.FunctionDef) and n.name == e.id:
+                            vals = [x.value for x in ast.walk(n) if isinstance(x, ast.Return)]
+                        elif isinstance(n, ast.Assign) and len(n.targets) == 1 and isinstance(n.targets[0], ast.Name) and n.targets[0].id == e.id \
+                                and isinstance(n.value, ast.Lambda):
+                            vals = [n.value.body]
+                        if vals:
+                            ks = {dotted(v.func) if isinstance(v, ast.Call) else None for v in vals}
+                            if len(ks) == 1 and None not in ks:
+                                return next(iter(ks)).split('.')[-1]
+                par = getattr(par, '_parent', None)
     d = dotted(e)
     return d.split('.')[-1] if d else None
 
@@ -266,6 +293,28 @@ def canon_atom(expr):
     return (_NEGOP[op], l, r, False)
 
 
+def _finite_items(a):
+    """The finitely many operand expressions of any(..) / all(..) when they can be enumerated syntactically."""
+    if isinstance(a, (ast.List, ast.Tuple, ast.Set)):
+        return list(a.elts)
+    if isinstance(a, (ast.GeneratorExp, ast.ListComp)) and len(a.generators) == 1:
+        g = a.generators[0]
+        it = strip_cast(g.iter)
+        if isinstance(g.target, ast.Name) and not g.ifs and isinstance(it, (ast.List, ast.Tuple, ast.Set)) and it.elts \
+                and all(isinstance(x, ast.Constant) for x in it.elts):
+            out = []
+            for c in it.elts:
+                class _S(ast.NodeTransformer):
+                    def visit_Name(self, node):
+                        if node.id == g.target.id and isinstance(node.ctx, ast.Load):
+                            return ast.copy_location(ast.Constant(value=c.value), node)
+                        return node
+                import copy as _copy
+                out.append(ast.fix_missing_locations(_S().visit(_copy.deepcopy(a.elt))))
+            return out
+    return None
+
+
 class BoolAbs:
     """Evaluate guard conditions as propositional formulas over classified atoms.
     classify(op, left, right, expr) -> variable name or None (unknown atoms become their own variables '?text')."""
@@ -300,6 +349,18 @@ class BoolAbs:
             return all(rs) if isinstance(e.op, ast.And) else any(rs)
         if isinstance(e, ast.Constant):
             return bool(e.value)
+        if isinstance(e, ast.Call) and isinstance(e.func, ast.Name) and e.func.id in ('any', 'all') and len(e.args) == 1 and not e.keywords:
+            # any / all over a display, or over a generator ranging over a display of constants: a finite disjunction / conjunction
+            items = _finite_items(strip_cast(e.args[0]))
+            if items is not None:
+                rs = [self.ev(i, val) for i in items]
+                return any(rs) if e.func.id == 'any' else all(rs)
+        if isinstance(e, ast.Call) and isinstance(e.func, ast.Name) and e.func.id == 'isinstance' and len(e.args) == 2 \
+                and isinstance(e.args[1], ast.Tuple) and e.args[1].elts:
+            # isinstance(x, (A, B)) is the disjunction of the per-class tests, unless the rule classifies the tuple test as a whole
+            c = canon_atom(e)
+            if c is None or self.classify(c[0], c[1], c[2], e) is None:
+                return any(self.ev(ast.Call(func=e.func, args=[e.args[0], k], keywords=[]), val) for k in e.args[1].elts)
         name, pol = self._var(e)
         return val.get(name, False) == pol
 
